@@ -436,7 +436,7 @@ _ZLINES = [
     "www 60 IN CNAME ns1", "www IN 60 A 10.0.0.3", "mx MX 10 mail", "txt TXT \"hello world\" \"x\"", "txt2 TXT ( \"a\"\n \"b\" ) ; comment", "sub NS ns.sub", "ns.sub A 10.1.1.1",
     "$GENERATE 1-3 host$ A 10.0.0.$", "$GENERATE 1-5/2 h${0,3,x} CNAME t${1,0,d}.example.", "*.w A 10.9.9.9", "other.zone. A 1.1.1.1", "$ORIGIN sub.example.", "x A 10.2.2.2",
     "$INCLUDE /nonexistent", "$UNICODE 1", "TYPE65280 \\# 2 abcd", "g CLASS1 TYPE1 \\# 4 0a000001", "a 300 A 10.0.0.1 ; trailing", "", "; just a comment", "( )",
-    "@ 300 IN SOA ns1 hostmaster ( 1 2 3 4\n 5 )", "dn DNAME target", "c CNAME x", "c A 1.2.3.4", "rr RRSIG A 8 2 300 20200101000000 20190101000000 1 example. AQID",
+    "$ORIGIN example", "$ORIGIN sub", "@ 300 IN SOA ns1 hostmaster ( 1 2 3 4\n 5 )", "dn DNAME target", "c CNAME x", "c A 1.2.3.4", "rr RRSIG A 8 2 300 20200101000000 20190101000000 1 example. AQID",
 ]
 
 
@@ -487,8 +487,12 @@ def text_zone_cases(draw):
         t = draw(soup(None, max_tokens=16))
     else:
         lines = [draw(st.sampled_from(_ZLINES)) for _ in range(draw(st.integers(1, 10)))]
-        if draw(st.booleans()):
+        pre = draw(st.integers(0, 3))
+        if pre >= 2:
             lines = _ZLINES[:5] + lines
+        elif pre == 1:
+            # no absolute $ORIGIN in front: the origin comes from the caller (or from nowhere)
+            lines = [draw(st.sampled_from(["$ORIGIN example", "$ORIGIN sub", "$TTL 300"])), "$TTL 300"] + (_ZLINES[3:5] if draw(st.booleans()) else []) + lines
         t = "\n".join(lines)
         if k >= 2:
             t = draw(soup(t))
